@@ -147,7 +147,8 @@ class C28(SchedProp):
         b = [t for t in last['xt']['pool'] if (t['p'], t['n']) == (1, 'b')]
         any_output = bool(b) and any(a[3] != 0 for pre in b[0]['pre'] for a in pre if a[:3] == [1, 'a', 'succeeded'])
         unpooled = [1, 'e'] in raws[1]['obs'][-1]['xt']['now']
-        self.flags = {'anyOutput': any_output, 'triggerUnpooled': unpooled}
+        mode = self._probe_row_insert_mode()
+        self.flags = {'anyOutput': any_output, 'triggerUnpooled': unpooled, 'rowInsertMode': mode}
         tf = {True: 'true', False: 'false'}
         return {'TrigFlags.lean': (
             '/- GENERATED by harness/props/c28.py translate() from the live source. Do not edit. -/\n'
@@ -158,7 +159,43 @@ class C28(SchedProp):
             '/-- `cylc trigger` triggers the object `_set_prereqs_tdef` hands back even when it is not the pooled proxy of\n'
             'its instance (true: code as found; false: repaired) -/\n'
             f'def triggerUnpooled : Bool := {tf[unpooled]}\n'
+            '/-- `_load_historical_outputs`, rows overlap the flows of the proxy but none has exactly its flows: fresh rows\n'
+            'are queued never (0) / always (1) / unless the proxy is a finished, complete instance not to be spawned (2) -/\n'
+            f'def rowInsertMode : Nat := {mode}\n'
             'end CylcModel.TrigFlags\n')}
+
+    @staticmethod
+    def _probe_row_insert_mode():
+        """Call the live TaskPool._load_historical_outputs on stand-in objects: one overlapping DB row of other flows."""
+        from types import SimpleNamespace
+        from cylc.flow.task_pool import TaskPool
+
+        def called(status, complete, outputs_text):
+            calls = []
+
+            class _State:
+                def __init__(self):
+                    self.status = status
+                    self.outputs = SimpleNamespace(set_trigger_complete=lambda t: None,
+                                                   set_message_complete=lambda m: None,
+                                                   is_complete=lambda: complete)
+
+                def __call__(self, *statuses):
+                    return self.status in statuses
+            itask = SimpleNamespace(tdef=SimpleNamespace(name='a'), point='1', flow_nums={1, 2}, state=_State(),
+                                    transient=False, is_complete=lambda: complete, identity='1/a')
+            pool = SimpleNamespace(
+                workflow_db_mgr=SimpleNamespace(pri_dao=SimpleNamespace(
+                    select_task_outputs=lambda name, point: {outputs_text: {1}})),
+                db_add_new_flow_rows=lambda it: calls.append(it))
+            TaskPool._load_historical_outputs(pool, itask)
+            return bool(calls)
+        try:
+            unfinished = called('waiting', False, '{}')
+            finished = called('succeeded', True, '{"succeeded": "succeeded"}')
+        except Exception as exc:
+            raise Infra(f'C28 probe of _load_historical_outputs failed: {exc!r}')
+        return 0 if not unfinished else 1 if finished else 2
 
     def corpus(self):
         return [{'id': 'c28-' + k, 'flow': v[0], 'seed': 0, 'opts': {}, 'policy': {'obs_db': True}, 'ops': v[1],
@@ -259,9 +296,11 @@ C28.statement_note = (
     'judge only): the end-to-end statements "each member runs exactly once more along every continuation" (liveness over the '
     'whole scheduler incl. removal, kill and respawn), the ordering of later submissions after in-group outputs, '
     'whole-command versions of (3)/(4) through _remove_matched_tasks, and (3) for a live member that is in no flow or '
-    'flow-waiting (merge_flows then also spawns on its completed outputs). Five deviations of cylc-flow from the property '
+    'flow-waiting (merge_flows then also spawns on its completed outputs). Six deviations of cylc-flow from the property '
     'text are recorded as findings: live-parent-any-output (repair proposed: findings/C28-fix-1.diff), '
     'unpooled-object-triggered (repair proposed: findings/C28-fix-2.diff), sequential-task, abs-trigger-in-group, '
-    'other-flow-member.')
+    'other-flow-member; and a regression of cylc-flow ec8c5af, queued-row-survives-removal (a finished group-start member is '
+    'silently not re-run; repair proposed: findings/C28-fix-3.diff; the model follows the three behaviours of '
+    '_load_historical_outputs through the probed flag TrigFlags.rowInsertMode).')
 
 PROP = C28()
